@@ -189,6 +189,40 @@ def janet_quick_asm : List SkLine :=
     ⟨0, "call", none, "janet_def_addflags($0)"⟩,
     ⟨0, "call", none, "janet_def(p0, p2, janet_wrap_function(janet_thunk($0)), p9)"⟩]
 
+/-- `(set x v)` (specials.c): a slot without `JANET_SLOT_MUTABLE` is refused ("cannot set constant") before anything is emitted; this is the
+    only compiler path that assigns a named local / upvalue / global variable (hypothesis `himmune` of `opreduce_snapshot_chain_computes`) -/
+def janetc_varset : List SkLine :=
+   [⟨0, "if", none, "p1 != 2"⟩,
+    ⟨1, "call", none, "janetc_cerror(p0.compiler, \"expected 2 arguments to set\")"⟩,
+    ⟨1, "ret", none, "janetc_cslot(janet_wrap_nil())"⟩,
+    ⟨0, "let", none, "$0 = janetc_fopts_default(p0.compiler)"⟩,
+    ⟨0, "if", none, "janet_checktype(p2[0], JANET_SYMBOL)"⟩,
+    ⟨1, "let", none, "$1 = janet_unwrap_symbol(p2[0])"⟩,
+    ⟨1, "let", none, "$2 = janetc_resolve(p0.compiler, $1)"⟩,
+    ⟨1, "if", none, "!($2.flags & JANET_SLOT_MUTABLE)"⟩,
+    ⟨2, "call", none, "janetc_cerror(p0.compiler, \"cannot set constant\")"⟩,
+    ⟨2, "ret", none, "janetc_cslot(janet_wrap_nil())"⟩,
+    ⟨1, "set", none, "$0.flags = JANET_FOPTS_HINT"⟩,
+    ⟨1, "set", none, "$0.hint = $2"⟩,
+    ⟨1, "let", none, "$3 = janetc_value($0, p2[1])"⟩,
+    ⟨1, "call", none, "janetc_copy(p0.compiler, $2, $3)"⟩,
+    ⟨1, "ret", none, "$3"⟩,
+    ⟨0, "else", none, ""⟩,
+    ⟨1, "if", none, "janet_checktype(p2[0], JANET_TUPLE)"⟩,
+    ⟨2, "let", none, "$4 = janet_unwrap_tuple(p2[0])"⟩,
+    ⟨2, "if", none, "janet_tuple_length($4) != 2"⟩,
+    ⟨3, "call", none, "janetc_cerror(p0.compiler, \"expected 2 element tuple for l-value to set\")"⟩,
+    ⟨3, "ret", none, "janetc_cslot(janet_wrap_nil())"⟩,
+    ⟨2, "let", none, "$5 = janetc_value($0, $4[0])"⟩,
+    ⟨2, "let", none, "$6 = janetc_value($0, $4[1])"⟩,
+    ⟨2, "set", none, "p0.flags &= ~(JANET_FOPTS_TAIL | JANET_FOPTS_DROP)"⟩,
+    ⟨2, "let", none, "$7 = janetc_value(p0, p2[1])"⟩,
+    ⟨2, "emit", some .put, "sss JOP_PUT ($5, $6, $7, 0)"⟩,
+    ⟨2, "ret", none, "$7"⟩,
+    ⟨1, "else", none, ""⟩,
+    ⟨2, "call", none, "janetc_cerror(p0.compiler, \"expected symbol or tuple for l-value to set\")"⟩,
+    ⟨2, "ret", none, "janetc_cslot(janet_wrap_nil())"⟩]
+
 def janetc_check_nil_form : List SkLine :=
    [⟨0, "if", none, "!janet_checktype(p0, JANET_TUPLE)"⟩,
     ⟨1, "ret", none, "0"⟩,
